@@ -21,7 +21,9 @@ BOUNDS = ("Two builders start at the same symbolic position, one in absolute and
           "spiral, spline(2 points), polyline(2 points)} x 2D/3D: the absolute geometry handed to "
           "the sampler (start-centre and target-centre offsets, forwarded targets/centres/turns, "
           "spline control points) is identical in both modes for all start/target/centre values; "
-          "emission is to_distance_mode + move (C01). Vertex-by-vertex comparison of sampled "
+          "the emission loop of parametric() (to_distance_mode + move per vertex) is run on two symbolic sample "
+          "points in both modes (curve function and segment filter stubbed) and must reach exactly "
+          "those vertices. Vertex-by-vertex comparison of sampled "
           "output is NOT done (numpy/scipy).")
 ASSUMPTIONS = [
     "the sampler is a function of the captured absolute geometry (tracer frame condition, AST scan)",
@@ -229,6 +231,46 @@ def _make_shape(shape, dims):
     return h
 
 
+def _make_parametric(with_f):
+    """The emission loop of PathTracer.parametric() on symbolic vertices: the curve function
+    returns two symbolic sample points and the segment filter is replaced by the identity
+    (both are numpy code); what runs for real is `to_distance_mode` + `move` per vertex."""
+    def h(ox: Finite, oy: Finite, ax: Finite, ay: Finite, bx: Finite, by: Finite, f: Finite):
+        assume(f >= 0)
+        o = (ox, oy, 1.0)
+        (pa, ga, ra), (pb, gb, rb) = _two(o)
+        verts = [(ax, ay, 2.0), (bx, by, -3.0)]
+        kw = {"F": f} if with_f else {}
+        for g in (ga, gb):
+            g.trace._filter_segments = lambda pts: pts
+            e = attempt(g.trace.parametric, lambda thetas: verts, 10.0, **kw)
+            if e is not None:
+                msg = f"{exc_name(e)}: {e}"
+                return V("parametric-unexpected-exception", msg)
+        try:
+            posa, ma = _machine_positions(pa, ra)
+            posb, mb = _machine_positions(pb, rb)
+        except Malformed as mf:
+            return V("parametric-malformed-output", str(mf))
+        if len(posa) != 2 or len(posb) != 2:
+            return V("parametric-wrong-number-of-moves", lambda: f"{ra.text()!r} / {rb.text()!r}")
+        for k in range(2):
+            for i in range(3):
+                if not num_eq(posa[k][i], verts[k][i]) or not num_eq(posb[k][i], verts[k][i]):
+                    return V("parametric-vertex-not-reached",
+                             lambda: f"vertex {k}: absolute run {posa[k]!r}, relative run {posb[k]!r}, "
+                                     f"sample {verts[k]!r}; outputs {ra.text()!r} / {rb.text()!r}")
+        for g, m in ((ga, ma), (gb, mb)):
+            for i in range(3):
+                if not num_eq(g.position[i], verts[1][i]):
+                    return V("parametric-tracked-position-wrong", lambda: f"{tuple(g.position)!r}")
+            if with_f and (m.feed is None or not num_eq(m.feed, f)):
+                return V("parametric-parameters-not-forwarded", lambda: f"F={m.feed!r} expected {f!r}")
+        reached("compared")
+        return None
+    return h
+
+
 def validate():
     fc = frame_condition()
     return {"checked": 1, "failures": [f"tracer frame condition violated: {b}" for b in fc]}
@@ -241,6 +283,9 @@ def cells(tier):
         for nway in (1, 2):
             out.append(Cell(f"moves|{kind}|waypoints={nway}", _make_moves(kind, nway), budget_s=budget,
                             must_reach=("compared",), entry=f"GCodeBuilder.{kind}"))
+    for with_f in (False, True):
+        out.append(Cell(f"parametric-emission|F={with_f}", _make_parametric(with_f), budget_s=budget,
+                        must_reach=("compared",), entry="PathTracer.parametric (emission loop)"))
     for shape in ("arc", "helix", "arc_radius", "circle", "thread", "spiral", "spline", "polyline"):
         for dims in (2, 3):
             out.append(Cell(f"shape|{shape}|{dims}d", _make_shape(shape, dims), budget_s=budget,
